@@ -205,6 +205,20 @@ def fault_part(ck):
             except Exception as ex:
                 ck.violation("save:raised", f"save_state raised {ex!r} in configuration {conf}", {"conf": repr(conf)})
                 continue
+            # "saving works": a path whose parent directories do not exist yet (the library creates them), and the written file is
+            # plain data - it loads in another program that cannot import the module the user's model lives in
+            nested = os.path.join(d, "results", "run7", "states", "nested.state")
+            try:
+                s.save_state(nested)
+            except Exception as ex:
+                ck.violation("save:nested-directory", f"save_state to a path whose parent directories do not exist raised {ex!r}", {"conf": repr(conf)})
+            import subprocess
+
+            pr = subprocess.run(["/venv/bin/python", "-c", "import sys, dill\nwith open(sys.argv[1], 'rb') as f:\n    d = dill.load(f)\nprint(type(d).__name__)", final],
+                                cwd="/", env={"PATH": os.environ.get("PATH", ""), "PYTHONPATH": core.REPO, "PYTHONDONTWRITEBYTECODE": "1"}, capture_output=True, text=True, timeout=120)
+            if pr.returncode != 0:
+                ck.violation("save:needs-user-modules", "the checkpoint cannot be unpickled in a program that does not have the user's model module (the harness' own "
+                             f"drivers) on its path: {pr.stderr.strip().splitlines()[-1] if pr.stderr.strip() else pr.returncode}", {"conf": repr(conf)})
             old_file = file_snapshot(final)
             old_copy = os.path.join(root, f"old{ci}.bin")
             shutil.copyfile(final, old_copy)
